@@ -67,7 +67,26 @@ C18_PARTS = [
      "trace": {"module": "TraceCandSeg.tla", "consts": {"T": "3", "PX": "3"}}},
 ]
 
+def _nm_part(table, req, qlen, tlen, tiers=("quick", "thorough")):
+    c = lambda n: {"MaxLen": str(n), "Table": f'"{table}"', "ReqName": f'"{req}"', "Fixes": tlc.tla_set(["F13"])}
+    return {"name": f"namemap_{table}_{req}", "driver": "namemap", "tiers": tiers,
+            "design": {"module": "NameMap.tla", "invariants": ["Inv_Map", "Inv_Left"],
+                       "consts": {"quick": c(min(qlen, 3)), "thorough": c(3)}},
+            "args": {"quick": {"maxlen": qlen, "table": table, "req": req},
+                     "thorough": {"maxlen": tlen, "table": table, "req": req}},
+            "trace": {"module": "TraceNameMap.tla", "consts": {"quick": c(qlen), "thorough": c(tlen)}}}
+
+
+C17_PARTS = [_nm_part("T2", "CSV", 3, 4), _nm_part("T3", "GEFF", 3, 4),
+             _nm_part("T3", "CSV", 2, 3), _nm_part("T2", "GEFF", 2, 3)]
+
 PROPS = {
+    "C17": (C17_PARTS,
+            "all ordered lists of distinct names of a 22-name vocabulary (exact keys, case variants, near-duplicates) up to the "
+            "stated length, x 2 feature tables (2D / 3D display names) x 2 required-key sets (CSV / GEFF); non-trivial = list with "
+            "a column that is not an exact standard key",
+            ["names outside the 22-name vocabulary are not explored", "difflib similarity supplied as a constant table "
+             "computed by the standard library, independently of funtracks"]),
     "C18": (C18_PARTS,
             "point lists: every non-empty subset of {frames} x {3 grid positions} (all frame gaps), distances incl. the boundary cases "
             "d=2 and the 3-4-5 triangle; label arrays: all 3-frame 1x3 arrays with 2 labels per frame; non-trivial = input with a frame gap / output with edges",
